@@ -1258,9 +1258,12 @@ class Driver(object, metaclass=DriverMetaclass):
         dict
            Dictionary containing values of each constraint.
         """
-        # Note we populate the vector in an unscaled state for getting violations
         con_vec = self._vectors['constraint']
-        con_vec.update_from_model(driver=self, driver_scaling=driver_scaling and not viol)
+        con_vec.update_from_model(driver=self, driver_scaling=driver_scaling)
+
+        if viol and driver_scaling:
+            # violations in driver units are measured against the driver-scaled bounds
+            lower_vec, upper_vec, equals_vec = self._autoscaler.get_bounds_scaling('constraint')
 
         con_dict = {}
         it = self._cons.items()
@@ -1276,23 +1279,18 @@ class Driver(object, metaclass=DriverMetaclass):
         for name, meta in it:
             if viol:
                 con_val = con_vec[name]
-                if meta['equals'] is not None:
-                    con_val -= meta['equals']
+                if driver_scaling:
+                    lower, upper, equals = lower_vec[name], upper_vec[name], equals_vec[name]
                 else:
-                    lower_viol_idxs = np.where(con_val < meta['lower'])[0]
-                    upper_viol_idxs = np.where(con_val > meta['upper'])[0]
-                    non_viol_idxs = np.where((con_val >= meta['lower'])
-                                             & (con_val <= meta['upper']))[0]
-                    con_val[lower_viol_idxs] -= meta['lower']
-                    con_val[upper_viol_idxs] -=  meta['upper']
-                    con_val[non_viol_idxs] = 0.0
+                    lower, upper, equals = meta['lower'], meta['upper'], meta['equals']
+                if meta['equals'] is not None:
+                    con_val -= equals
+                else:
+                    # elementwise, so that scalar and array bounds are both handled
+                    con_val[:] = np.where(con_val > upper, con_val - upper,
+                                          np.where(con_val < lower, con_val - lower, 0.0))
 
             con_dict[name] = con_vec[name].copy()
-
-        # If we computed violations, those were unscaled.
-        # Now scale them.
-        if driver_scaling and viol:
-            self._autoscaler.apply_constraint_scaling(con_vec)
 
         return con_dict
 
